@@ -492,7 +492,9 @@ func vc35Case(k *vlib.Case, st vc35Stratum) {
 
 	vlib.Guard(k, "run", 120*time.Second, func() {
 		for ph := range script {
-			w.runPhase(ph, script[ph])
+			if !w.runPhase(ph, script[ph]) {
+				break
+			}
 		}
 	})
 
@@ -508,7 +510,7 @@ func vc35Case(k *vlib.Case, st vc35Stratum) {
 	w.finish()
 }
 
-func (w *vc35World) runPhase(ph int, P vc35Phase) {
+func (w *vc35World) runPhase(ph int, P vc35Phase) bool {
 	w.mu.Lock()
 	w.halfRemove = map[int]bool{}
 	w.mu.Unlock()
@@ -538,14 +540,19 @@ func (w *vc35World) runPhase(ph int, P vc35Phase) {
 		}()
 	}
 	wg.Wait()
-	w.quiesce()
+	if !w.quiesce() {
+		return false
+	}
 	w.check(ph, "phase-end")
 	if P.tickAtRest {
 		w.mq.RebroadcastNow()
-		w.quiesce()
+		if !w.quiesce() {
+			return false
+		}
 		w.check(ph, "after-rebroadcast-at-rest")
 		w.k.C.Count("rebroadcasts_at_rest", 1)
 	}
+	return true
 }
 
 func (w *vc35World) peek(cids []int) []vc35Peek {
@@ -636,14 +643,42 @@ func (w *vc35World) barrier() {
 // the queue's lock) means no later send can carry content; the barrier then
 // waits out whatever the run loop had in flight; the final look excludes work
 // that a rebroadcast or a size-limited send left behind.
-func (w *vc35World) quiesce() {
+//
+// While work is pending the loop also looks for a stall, again from state:
+// with no producer running, only the run loop can schedule the next send, and
+// it does so through mq.outgoingWork. If across two consecutive barriers (the
+// run loop was back at its select both times) the pending work and the number
+// of sent messages are unchanged and no signal is queued, nothing will ever
+// send the pending work (short of the 15 s rebroadcast timer): reported as
+// class stalled-pending-work, returns false.
+func (w *vc35World) quiesce() bool {
+	type obs struct{ pending, msgs, signal int }
+	look := func() obs {
+		w.mu.Lock()
+		n := len(w.msgs)
+		w.mu.Unlock()
+		return obs{w.mq.pendingWorkCount(), n, len(w.mq.outgoingWork)}
+	}
 	for {
 		for w.mq.pendingWorkCount() != 0 {
+			w.barrier()
+			o1 := look()
+			w.barrier()
+			o2 := look()
+			if o1 == o2 && o1.pending != 0 && o1.signal == 0 {
+				w.mq.wllock.Lock()
+				d := fmt.Sprintf("pending peer wants=%d, pending broadcast wants=%d, queued cancels=%d; messages sent so far=%d; outgoingWork signal queued=%v",
+					w.mq.peerWants.pending.Len(), w.mq.bcstWants.pending.Len(), w.mq.cancels.Len(), o1.msgs, o1.signal != 0)
+				w.mq.wllock.Unlock()
+				w.k.Fail("stalled-pending-work", "a current want is never left unsent (queue idle with work pending and no send scheduled)",
+					"every pending want/cancel is sent once the producers stop", d)
+				return false
+			}
 			time.Sleep(300 * time.Microsecond)
 		}
 		w.barrier()
 		if w.mq.pendingWorkCount() == 0 {
-			return
+			return true
 		}
 	}
 }
